@@ -14,7 +14,10 @@ import (
 	"fmt"
 	"os"
 	"os/exec"
+	"regexp"
+	"runtime/debug"
 	"sort"
+	"strings"
 	"testing"
 	"time"
 
@@ -290,6 +293,8 @@ type runOut struct {
 	Noisy [][]byte `json:"noisy"` // per main batch: second store, other routes, noise, shifted heights
 	Warm  [][]byte `json:"warm"`  // per main batch: replayed on the second store once more
 	Err   string   `json:"err,omitempty"`
+	// Tolerated names the known finding whose exact signature stopped the second store's runs (only when it is listed)
+	Tolerated string `json:"tolerated,omitempty"`
 }
 
 // replay commits the main batches on st and returns their roots.  flip selects the opposite route per batch.
@@ -363,27 +368,97 @@ func replay(st *mavl.Store, s script, r resolved, flip, noise bool, shift int64)
 	return out, nil
 }
 
+// ---- known finding C02-memtree-pending-poison (see TestKnown_MemTreePendingPoison for the mechanism)
+
+const knownPoison = "C02-memtree-pending-poison"
+
+var missingNodeRe = regexp.MustCompile(`(?:left|right) hash 0x([0-9a-f]+) ErrNodeNotExist`)
+
+// safeReplay is replay with a panic inside the store turned into a message (the store is abandoned afterwards; the
+// panics of interest are raised by getLeftNode/getRightNode after nodeDB.GetNode has released its mutex).
+func safeReplay(st *mavl.Store, s script, r resolved, flip, noise bool, shift int64) (roots [][]byte, err error, panicMsg string) {
+	defer func() {
+		if e := recover(); e != nil {
+			stack := debug.Stack()
+			if len(stack) > 1500 {
+				stack = stack[:1500]
+			}
+			panicMsg = fmt.Sprintf("%v\n%s", e, stack)
+		}
+	}()
+	roots, err = replay(st, s, r, flip, noise, shift)
+	return
+}
+
+// poisonSignature is the exact signature of the known finding: key-prefix + node-cache configuration; the store has
+// executed at least one unrelated pending MemSet; the store panics with ErrNodeNotExist for a height-prefixed node key
+// that is absent from the database while a committed node with the same 32-byte content hash exists under another key
+// (the committed twin whose parent was shadowed in the cache by the uncommitted tree's variant).
+func poisonSignature(c storeCfg, st *mavl.Store, hasPending bool, panicMsg string) bool {
+	if !(c.Prefix || c.Prune) || !c.MemTree || !hasPending {
+		return false
+	}
+	m := missingNodeRe.FindStringSubmatch(panicMsg)
+	if m == nil {
+		return false
+	}
+	key, err := hex.DecodeString(m[1])
+	if err != nil || len(key) <= 32 {
+		return false
+	}
+	db := st.GetDB()
+	if v, _ := db.Get(key); len(v) > 0 {
+		return false
+	}
+	raw := key[len(key)-32:]
+	if v, _ := db.Get(raw); len(v) > 0 { // twin stored without prefix (it once was a root)
+		return true
+	}
+	it := db.Iterator(key[:5], nil, false) // "_mb_-" or "_mh_-"
+	defer it.Close()
+	for it.Rewind(); it.Valid(); it.Next() {
+		if bytes.HasSuffix(it.Key(), raw) && !bytes.Equal(it.Key(), key) {
+			return true
+		}
+	}
+	return false
+}
+
 func runConfig(c storeCfg, driver string, s script, r resolved) (o runOut) {
 	dir, err := os.MkdirTemp("", "c02-")
 	if err != nil {
 		lib.Inconclusive("tempdir: %v", err)
 	}
 	defer os.RemoveAll(dir)
+	var pm string
 	st := openStore(c, driver, dir+"/a")
-	o.Roots, err = replay(st, s, r, false, false, 0)
+	o.Roots, err, pm = safeReplay(st, s, r, false, false, 0)
 	st.Close()
-	if err != nil {
-		o.Err = "cold: " + err.Error()
+	if err != nil || pm != "" {
+		o.Err = fmt.Sprintf("cold: %v %s", err, pm)
 		return
 	}
 	st = openStore(c, driver, dir+"/b")
 	defer func() { st.Close(); mavldb.ReleaseGlobalMem() }()
-	if o.Noisy, err = replay(st, s, r, true, true, s.Shift); err != nil {
-		o.Err = "noisy: " + err.Error()
-		return
+	hasPending := false
+	for _, op := range s.Ops {
+		hasPending = hasPending || op.Op == "nmemset"
 	}
-	if o.Warm, err = replay(st, s, r, false, false, 0); err != nil {
-		o.Err = "warm: " + err.Error()
+	for _, v := range []struct {
+		name        string
+		dst         *[][]byte
+		flip, noise bool
+		shift       int64
+	}{{"noisy", &o.Noisy, true, true, s.Shift}, {"warm", &o.Warm, false, false, 0}} {
+		*v.dst, err, pm = safeReplay(st, s, r, v.flip, v.noise, v.shift)
+		if pm != "" && lib.Known(knownPoison) && poisonSignature(c, st, hasPending, pm) {
+			o.Tolerated = knownPoison
+			return
+		}
+		if err != nil || pm != "" {
+			o.Err = fmt.Sprintf("%s: %v %s", v.name, err, pm)
+			return
+		}
 	}
 	return
 }
@@ -514,6 +589,9 @@ func checkScript(t lib.TB, s script, childCfgs []int) {
 			name  string
 			roots [][]byte
 		}{{"cold store, no noise", o.Roots}, {"other route + unrelated updates + height shift", o.Noisy}, {"warm store replay", o.Warm}} {
+			if o.Tolerated != "" && v.name != "cold store, no noise" {
+				break // the second store hit the listed known finding: its runs stopped there
+			}
 			if i := firstDiff(ref, v.roots); i >= 0 {
 				var got []byte
 				if i < len(v.roots) {
@@ -531,7 +609,11 @@ func checkScript(t lib.TB, s script, childCfgs []int) {
 			lib.Class("leveldb_run")
 		}
 		lib.Eval()
-		compare(c, runConfig(c, driver, s, r), "")
+		o := runConfig(c, driver, s, r)
+		if o.Tolerated != "" {
+			lib.ExcludedKnown(o.Tolerated)
+		}
+		compare(c, o, "")
 		for _, cc := range childCfgs {
 			if cc%len(cfgs) == ci {
 				o, crash := runChild(c, driver, s)
@@ -575,4 +657,82 @@ func TestPropRootDeterminism(t *testing.T) {
 		}
 		checkScript(t, s, child)
 	})
+}
+
+// ---------------------------------------------------------------- pinned known finding
+
+func kvs(p ...string) []*types.KeyValue {
+	var out []*types.KeyValue
+	for i := 0; i+1 < len(p); i += 2 {
+		out = append(out, &types.KeyValue{Key: []byte(p[i]), Value: []byte(p[i+1])})
+	}
+	return out
+}
+
+// TestKnown_MemTreePendingPoison: with key prefixing and the node cache enabled, unrelated updates that were only
+// computed (MemSet) and rolled back make a committed root unusable.  Mechanism: Tree.Hash() publishes the nodes of the
+// uncommitted tree in the process-global memTree, keyed by the hash of the height-prefixed node hash; an inner node's
+// hash covers only the last 32 bytes of its children's hashes, so a pending tree that re-creates a leaf with unchanged
+// content (k rewritten with its old value) yields an inner node with the same key as the committed tree's node but
+// pointing at the leaf key of the pending height, which is never written.  TreeMap.Add toggles (a second Add of a key
+// deletes it, a third re-inserts), Rollback removes nothing, and GetNode prefers the cache to the database.
+// Oracle (property text): applying writes to the committed root yields the same root whatever other updates were
+// computed, committed or rolled back earlier in the process (here: the root of the in-memory reference tree).
+func TestKnown_MemTreePendingPoison(t *testing.T) {
+	defer lib.Flush()
+	zero := make([]byte, 32)
+	ref := func(order ...string) []byte {
+		tr := mavldb.NewTree(nil, true, nil)
+		for _, kv := range kvs(order...) {
+			tr.Set(kv.Key, kv.Value)
+		}
+		return tr.Hash()
+	}
+	wantNext := ref("a", "1", "k", "2", "z", "3", "x", "4", "k", "5", "a", "7")
+	histories := map[string]func(st *mavl.Store) []byte{
+		// what block execution does: three candidate updates of one parent at one height, one committed, two rolled back
+		"memset-only": func(st *mavl.Store) []byte {
+			p, _ := st.MemSet(&types.StoreSet{StateHash: zero, KV: kvs("a", "1", "k", "2", "z", "3"), Height: 1}, false)
+			_, _ = st.Commit(&types.ReqHash{Hash: p})
+			a, _ := st.MemSet(&types.StoreSet{StateHash: p, KV: kvs("x", "4"), Height: 2}, false)
+			_, _ = st.Commit(&types.ReqHash{Hash: a})
+			for _, extra := range []string{"y", "y2"} {
+				b, _ := st.MemSet(&types.StoreSet{StateHash: p, KV: kvs("k", "2", "x", "4", extra, "9"), Height: 2}, false)
+				_, _ = st.Rollback(&types.ReqHash{Hash: b})
+			}
+			return a
+		},
+		// one rolled-back pending update, then the one-step route
+		"memset-rollback-then-set": func(st *mavl.Store) []byte {
+			p, _ := st.Set(&types.StoreSet{StateHash: zero, KV: kvs("a", "1", "k", "2", "z", "3"), Height: 1}, false)
+			b, _ := st.MemSet(&types.StoreSet{StateHash: p, KV: kvs("k", "2", "x", "4"), Height: 2}, false)
+			_, _ = st.Rollback(&types.ReqHash{Hash: b})
+			a, _ := st.Set(&types.StoreSet{StateHash: p, KV: kvs("x", "4"), Height: 2}, false)
+			return a
+		},
+	}
+	var failed []string
+	for _, name := range []string{"memset-only", "memset-rollback-then-set"} {
+		for _, c := range []storeCfg{{Prefix: true, MemTree: true}, {Prefix: true, MemTree: true, MemVal: true}} {
+			func() {
+				st := openStore(c, "memdb", "")
+				defer func() {
+					if e := recover(); e != nil {
+						failed = append(failed, strings.TrimSpace(fmt.Sprintf("%s/%s: panic %.160v", name, c, e)))
+					}
+					st.Close()
+					mavldb.ReleaseGlobalMem()
+				}()
+				a := histories[name](st)
+				next, err := st.MemSet(&types.StoreSet{StateHash: a, KV: kvs("k", "5", "a", "7"), Height: 3}, false)
+				if err != nil || !bytes.Equal(next, wantNext) {
+					failed = append(failed, fmt.Sprintf("%s/%s: root %x err %v, reference %x", name, c, next, err, wantNext))
+				}
+			}()
+		}
+	}
+	if len(failed) > 0 {
+		lib.KnownOrViolation(t, prop, "TestKnown_MemTreePendingPoison", knownPoison, map[string]interface{}{"failed": failed},
+			"enableMavlPrefix+enableMemTree: after unrelated MemSets that were rolled back, writes to / reads of a committed root panic with ErrNodeNotExist (node cache poisoned by uncommitted trees): "+fmt.Sprint(failed))
+	}
 }
